@@ -22,6 +22,8 @@ import (
 
 	"github.com/Masterminds/semver/v3"
 
+	chart "helm.sh/helm/v4/pkg/chart/v2"
+	"helm.sh/helm/v4/pkg/downloader"
 	"helm.sh/helm/v4/pkg/registry"
 
 	"verif/harness/internal/hx"
@@ -44,6 +46,7 @@ type c18OOCI struct {
 	Tags   []string  `json:"tags"`
 	VR     []c18OVR  `json:"vr"`    // Client.ValidateReference("oci://host/repo", version, url)
 	Match  []c18OTag `json:"match"` // GetTagMatchingVersionOrConstraint(Client.Tags(..), version)
+	Res    []c18ORes `json:"res"`   // Resolve of one dependency oci://host/charts, name appN, range = version
 	Panic  string    `json:"panic,omitempty"`
 }
 
@@ -58,6 +61,7 @@ var (
 	c18StubMu     sync.Mutex
 	c18StubRepos  = map[string][][]string{}
 	c18StubSeq    int
+	c18StubDir    string
 )
 
 func c18StubStart() {
@@ -103,6 +107,7 @@ func c18StubStart() {
 		c18StubErr = err
 		return
 	}
+	c18StubDir = dir
 	c18StubClient, c18StubErr = registry.NewClient(registry.ClientOptPlainHTTP(),
 		registry.ClientOptCredentialsFile(filepath.Join(dir, "config.json")))
 }
@@ -119,7 +124,8 @@ func c18RunOCI(q c18OCI) (o c18OOCI) {
 	}
 	c18StubMu.Lock()
 	c18StubSeq++
-	repo := fmt.Sprintf("charts/app%d", c18StubSeq)
+	name := fmt.Sprintf("app%d", c18StubSeq)
+	repo := "charts/" + name
 	c18StubRepos[repo] = q.Pages
 	c18StubMu.Unlock()
 	defer func() {
@@ -175,6 +181,22 @@ func c18RunOCI(q c18OCI) (o c18OOCI) {
 			}
 		}()
 		o.Match = append(o.Match, ot)
+		or := c18ORes{}
+		func() {
+			defer func() {
+				if p := recover(); p != nil {
+					or = c18ORes{Kind: "panic"}
+				}
+			}()
+			reqs := []*chart.Dependency{{Name: name, Version: v, Repository: "oci://" + c18StubHost + "/charts"}}
+			lock, err := downloader.VerifResolveOCI(filepath.Join(c18StubDir, "chart"), c18StubDir, c18StubClient, reqs, map[string]string{name: "oci-stub"})
+			if err != nil || lock == nil || len(lock.Dependencies) != 1 || lock.Dependencies[0] == nil {
+				or.Kind = "err"
+				return
+			}
+			or = c18ORes{Kind: "ok", Versions: []string{lock.Dependencies[0].Version}}
+		}()
+		o.Res = append(o.Res, or)
 	}
 	return o
 }
@@ -424,6 +446,60 @@ func c18OCIOracle(q c18OCI, o c18OOCI, bad func(sig, what string)) {
 				judge(where, v, vr.Kind, vr.Tag)
 			}
 		}
+		if i < len(o.Res) {
+			rs := o.Res[i]
+			where := fmt.Sprintf("Resolve(OCI dependency with range %q) on pages %v", v, q.Pages)
+			k, cerr := semver.NewConstraint(v)
+			switch {
+			case rs.Kind == "panic":
+				bad("oci-panic", where+" panicked")
+			case cerr != nil:
+				if rs.Kind == "ok" {
+					bad("oci-resolve-unsatisfiable", where+" produced a lock for an unparsable range")
+				}
+			case parse(v) != nil:
+				// an explicit version is locked as it is (it satisfies itself)
+				if k.Check(parse(v)) && (rs.Kind != "ok" || rs.Versions[0] != v) {
+					bad("oci-resolve-explicit", where+" did not lock the explicit version")
+				}
+			default:
+				var cands []string
+				for _, s := range all {
+					if pv := parse(s); pv != nil && k.Check(pv) {
+						cands = append(cands, s)
+					}
+				}
+				switch {
+				case len(cands) == 0:
+					if rs.Kind == "ok" && rs.Versions[0] == v {
+						// known finding K-C18-1: the OCI branch never reports a dependency as missing
+						bad("oci-resolve-range-locked", where+" did not fail although no listed tag is in range: the lock carries the range text "+v+" as version")
+					} else if rs.Kind == "ok" {
+						bad("oci-resolve-unsatisfiable", where+" locked "+rs.Versions[0]+" although no listed tag is in range")
+					}
+				case rs.Kind != "ok":
+					bad("oci-resolve-missed", where+" failed although the listed tag "+cands[0]+" is in range")
+				default:
+					rv := parse(rs.Versions[0])
+					in := false
+					for _, s := range cands {
+						if s == rs.Versions[0] {
+							in = true
+						}
+					}
+					if rv == nil || !in {
+						bad("oci-resolve-unsatisfying", where+" locked "+rs.Versions[0]+" which is not a listed tag in range")
+						break
+					}
+					for _, s := range cands {
+						if parse(s).GreaterThan(rv) {
+							bad("oci-resolve-best", fmt.Sprintf("%s locked %s although the higher tag %s is in range", where, rs.Versions[0], s))
+							break
+						}
+					}
+				}
+			}
+		}
 		if i < len(o.Match) {
 			m := o.Match[i]
 			where := fmt.Sprintf("GetTagMatchingVersionOrConstraint(Client.Tags(..), %q) on pages %v", v, q.Pages)
@@ -449,7 +525,15 @@ func c18CoqOCI(q c18OCI, o c18OOCI) string {
 	}
 	var qs []string
 	for i, v := range q.Versions {
-		vr, m := "OVPanic", "OTPanic"
+		vr, m, rs := "OVPanic", "OTPanic", "ORPanic"
+		if i < len(o.Res) {
+			switch o.Res[i].Kind {
+			case "ok":
+				rs = "OROk " + hx.CoqStrList(o.Res[i].Versions)
+			case "err":
+				rs = "ORErr"
+			}
+		}
 		if i < len(o.VR) {
 			switch o.VR[i].Kind {
 			case "ok":
@@ -466,7 +550,7 @@ func c18CoqOCI(q c18OCI, o c18OOCI) string {
 				m = "OTErr"
 			}
 		}
-		qs = append(qs, fmt.Sprintf("(%s, %s, %s)", hx.CoqStr(v), vr, m))
+		qs = append(qs, fmt.Sprintf("(%s, %s, %s, %s)", hx.CoqStr(v), vr, m, rs))
 	}
 	return fmt.Sprintf("mkOci %s %s %s", hx.CoqList(pages), tags, hx.CoqList(qs))
 }
